@@ -329,3 +329,111 @@ theorem interval_exclusive {s s' : State α ε} {o : Owner} (hmu : s.mu = some o
     · cases hr
 
 end Nri.Mutex
+
+namespace Nri.Mutex
+variable {α ε : Type} [DecidableEq α] [DecidableEq ε]
+
+/-- a call, once made, keeps its plugin and its update list through every later step (only its
+    phase moves) -/
+theorem call_kept_step {s s' : State α ε} {e : Ev α ε} (h : step? s e = some s') {u : Uid}
+    {c : Call α ε} (hc : s.call u = some c) :
+    ∃ c', s'.call u = some c' ∧ c'.update = c.update ∧ c'.p = c.p := by
+  have keep : ∀ (v : Uid) (x : Call α ε), x.update = c.update → x.p = c.p → v = u →
+      ∃ c', upd s.call v (some x) u = some c' ∧ c'.update = c.update ∧ c'.p = c.p := by
+    intro v x h1 h2 hv; subst hv; exact ⟨x, by simp, h1, h2⟩
+  have other : ∀ (v : Uid) (x : Option (Call α ε)), v ≠ u →
+      ∃ c', upd s.call v x u = some c' ∧ c'.update = c.update ∧ c'.p = c.p := by
+    intro v x hv
+    exact ⟨c, by rw [upd_other _ _ (Ne.symm hv)]; exact hc, rfl, rfl⟩
+  cases e with
+  | call v p update =>
+    simp only [step?] at h
+    split at h
+    · cases h
+    · rename_i hn
+      injection h with h; subst h
+      by_cases hv : v = u
+      · subst hv; rw [hc] at hn; cases hn
+      · exact other v _ hv
+  | enter v =>
+    simp only [step?] at h
+    split at h
+    · rename_i p update hcv _
+      injection h with h; subst h
+      by_cases hv : v = u
+      · subst hv; rw [hc] at hcv; injection hcv with hcv; subst hcv
+        exact keep v _ rfl rfl rfl
+      · exact other v _ hv
+    · cases h
+  | fn v arg res =>
+    simp only [step?] at h
+    split at h
+    · rename_i p update hcv
+      split at h
+      · injection h with h; subst h
+        by_cases hv : v = u
+        · subst hv; rw [hc] at hcv; injection hcv with hcv; subst hcv
+          exact keep v _ rfl rfl rfl
+        · exact other v _ hv
+      · cases h
+    · cases h
+  | leave v =>
+    simp only [step?] at h
+    split at h
+    · rename_i p update r hcv
+      split at h
+      · injection h with h; subst h
+        by_cases hv : v = u
+        · subst hv; rw [hc] at hcv; injection hcv with hcv; subst hcv
+          exact keep v _ rfl rfl rfl
+        · exact other v _ hv
+      · cases h
+    · cases h
+  | ret v out =>
+    simp only [step?] at h
+    split at h
+    · rename_i p update r hcv
+      split at h
+      · injection h with h; subst h
+        by_cases hv : v = u
+        · subst hv; rw [hc] at hcv; injection hcv with hcv; subst hcv
+          exact keep v _ rfl rfl rfl
+        · exact other v _ hv
+      · cases h
+    · cases h
+  | reqBegin r =>
+    simp only [step?] at h
+    split at h
+    · injection h with h; subst h; exact ⟨c, hc, rfl, rfl⟩
+    · cases h
+  | handler r p =>
+    simp only [step?] at h
+    split at h
+    · injection h with h; subst h; exact ⟨c, hc, rfl, rfl⟩
+    · cases h
+  | reqEnd r =>
+    simp only [step?] at h
+    split at h
+    · injection h with h; subst h; exact ⟨c, hc, rfl, rfl⟩
+    · cases h
+  | callUnstarted p update out =>
+    simp only [step?] at h
+    split at h
+    · injection h with h; subst h; exact ⟨c, hc, rfl, rfl⟩
+    · cases h
+
+theorem call_kept_run {s s' : State α ε} {m : List (Ev α ε)} (h : run s m = some s') {u : Uid}
+    {c : Call α ε} (hc : s.call u = some c) :
+    ∃ c', s'.call u = some c' ∧ c'.update = c.update ∧ c'.p = c.p := by
+  induction m generalizing s c with
+  | nil => simp only [run] at h; injection h with h; subst h; exact ⟨c, hc, rfl, rfl⟩
+  | cons e m ih =>
+    simp only [run] at h
+    split at h
+    · rename_i s1 hs1
+      obtain ⟨c1, h1, h2, h3⟩ := call_kept_step hs1 hc
+      obtain ⟨c2, h4, h5, h6⟩ := ih h h1
+      exact ⟨c2, h4, h5.trans h2, h6.trans h3⟩
+    · cases h
+
+end Nri.Mutex
